@@ -99,14 +99,16 @@ def c03(ctx):
 def c06(ctx):
     q = ctx.quick
     plain = {"PreOps": False, "InPlaceOps": False, "CMax": 6, "DMax": 6}
-    ctx.tlc("KyberPairing", cfg(constants=plain, invariants=["TypeOK", "PairLaws"], view="View"), name="C06_mc")
+    ctx.tlc("KyberPairing", cfg(constants=plain, invariants=["PairLaws"], view="ViewOperands"), name="C06_mc_laws")
+    ctx.tlc("KyberPairing", cfg(constants=plain, invariants=["TypeOK"], view="View"), name="C06_mc")
     out = os.path.join(ctx.tmp, "C06_bfs.ndjson")
     ctx.tlc("KyberPairing", cfg(constants=plain, invariants=["Emit"]), name="C06_gen_bfs", collect=out)
     ctx.run_vh("pairing", ["-in", out, "-bindings", 2 if q else 4, "-max", 500 if q else 0])
     full = dict(plain, PreOps=True, InPlaceOps=True)
     acc = dict(plain, InPlaceOps=True)
     if not q:
-        ctx.tlc("KyberPairing", cfg(constants=acc, invariants=["TypeOK", "PairLaws"], view="View"), name="C06_mc_inplace")
+        ctx.tlc("KyberPairing", cfg(constants=full, invariants=["PairLaws"], view="ViewOperands"), name="C06_mc_laws_preops")
+        ctx.tlc("KyberPairing", cfg(constants=acc, invariants=["TypeOK"], view="View"), name="C06_mc_inplace")
         out2 = os.path.join(ctx.tmp, "C06_bfs_inplace.ndjson")
         ctx.tlc("KyberPairing", cfg(constants=acc, invariants=["Emit"]), name="C06_gen_bfs_inplace", collect=out2)
         ctx.run_vh("pairing", ["-in", out2, "-bindings", 2, "-max", 40000])
@@ -129,7 +131,7 @@ def c17(ctx):
     sim = os.path.join(ctx.tmp, "C17_sim.ndjson")
     ctx.tlc("PickEmbed", cfg(constants={"L": 7}, invariants=["Emit"]), name="C17_gen_sim", collect=sim,
             simulate="num=%d" % (20 if q else 400), depth=7, workers=1)
-    ctx.run_vh("pickembed", ["-in", sim, "-max", 0 if q else 6000, "-maxslow", 100 if q else 1500])
+    ctx.run_vh("pickembed", ["-in", sim, "-max", 700 if q else 6000, "-maxslow", 100 if q else 1500])
     ctx.run_vh("h2c", [])
     return ctx.finish("model_checking",
                       "behaviour = sequence of NewStream/CopyStream/Pick/Embed/Hash/Codec over 2 stream handles (seeded XOF; adversarial all-00 / all-ff prefixes forcing retries) and 2 point registers, data lengths 0..EmbedLen+8 x contents, messages of length 0..300 x tags (exhaustive to 2 steps, simulated to 6) x 21 group instances (capability matrix); after each producing step: q*P = O on the canonical route, Data() returns the stored bytes (also after encode/decode), relation to the other register (equal / differ) as the model predicts; plus Data() range check on 400 random members per embedding group and RFC 9380 vectors",
